@@ -18,17 +18,20 @@ GATE_BODIES = {"x": (["{h} v"], {"h": ("str", G2)}),
                "reset": (["RESET v"], {}),
                "decl-x": (["DECLARE tmp REAL[1]", "{h} v"], {"h": ("str", G2)}),
                "x-fence": (["{h} v", "FENCE v"], {"h": ("str", G2)}),
+               "extern-x": (['PRAGMA EXTERN foo "(x : INTEGER)"', "{h} v", "FENCE v"], {"h": ("str", G2)}),          # hoisted, but not a DECLARE
+               "x-decl-fence": (["{h} v", "DECLARE tmp REAL[1]", "FENCE v"], {"h": ("str", G2)}),                  # a call directly before a hoisted DECLARE
                "fence-x-fence": (["FENCE v", "{h} v", "FENCE v"], {"h": ("str", G2)}),
                "three": (["FENCE v", "RESET v", "FENCE v"], {}),
                "pulse": (['PULSE v "rf" ' + WF], {})}
-MEAS_HEADERS = {"mv": ("DEFCAL MEASURE v addr:", {}), "mf": ("DEFCAL MEASURE {q} addr:", {"q": ("int", Q)})}
+MEAS_HEADERS = {"mv": ("DEFCAL MEASURE v addr:", {}), "mf": ("DEFCAL MEASURE {q} addr:", {"q": ("int", Q)}),
+                "mv0": ("DEFCAL MEASURE v:", {})}          # measurement for effect (no target)
 MEAS_BODIES = {"cap-addr": (['CAPTURE v "ro" ' + WF + " addr[0]"], {}),
                "cap-other": (['CAPTURE v "ro" ' + WF + " other[0]"], {}),
                "loadmem": (['PRAGMA LOAD-MEMORY v "addr"'], {}),
                "fence": (["FENCE v"], {}),
                "x": (["{h} v"], {"h": ("str", G2)})}          # a gate inside a measure calibration: cycles that alternate between the two kinds
 BODY = [Tpl("g", "{g} {q}", g=("str", G2), q=("int", Q)), Tpl("gp", "{g}(2.0) {q}", g=("str", G2), q=("int", Q)),
-        Tpl("m", "MEASURE {q} ro[1]", q=("int", Q)), Tpl("h", "H 1"), Tpl("g2", "{g} {q} {r}", g=("str", G2), q=("int", Q), r=("int", Q))]
+        Tpl("m", "MEASURE {q} ro[1]", q=("int", Q)), Tpl("m0", "MEASURE {q}", q=("int", Q)), Tpl("h", "H 1"), Tpl("g2", "{g} {q} {r}", g=("str", G2), q=("int", Q), r=("int", Q))]
 
 
 def make_cal_templates():
@@ -123,6 +126,43 @@ def ref_expand(td, decide, gcals, mcals, ins, active, m=None, depth=0):
     return res
 
 
+def is_extern(td, x):
+    return x[0] == "Pragma" and fld(td, x[1][0], "Pragma", "name") == "EXTERN"
+
+
+def in_body(td, x):
+    """does add_instruction put this instruction into the program body?"""
+    return x[0] != "Declaration" and not is_extern(td, x)
+
+
+def ref_first_level(td, decide, gcals, mcals, ins, m=None):
+    """for a body instruction that a calibration expands: the number of body instructions each first-level instruction of the
+    calibration's (substituted) body contributes, with whether it is itself expanded; None when `ins` is not expanded"""
+    k = ins[0]
+    if k == "Gate":
+        i = gate_reference(td, decide, gcals, ins, m)
+        if i is None: return None
+        cal = gcals[i][1][0]
+        ident = fld(td, cal, "CalibrationDefinition", "identifier")
+        cq, cp = fld(td, ident, "CalibrationIdentifier", "qubits"), fld(td, ident, "CalibrationIdentifier", "parameters")
+        g = ins[1][0]
+        qmap = {c[1][0]: a for c, a in zip(cq, fld(td, g, "Gate", "qubits")) if c[0] == "Variable"}
+        emap = {c[1][0]: a for c, a in zip(cp, fld(td, g, "Gate", "parameters")) if c[0] == "Variable"}
+        body = [subst(b, qmap, emap) for b in fld(td, cal, "CalibrationDefinition", "instructions")]
+        key = ("g", i)
+    else:
+        return None          # measure calibrations of the alphabet do not nest further
+    out = []
+    for b in body:
+        try:
+            e = ref_expand(td, decide, gcals, mcals, b, frozenset({key}), m)
+        except Recursive:
+            return None
+        flat = [b] if e is None else e
+        out.append((e is not None, sum(1 for x in flat if in_body(td, x)), e is not None and any(not in_body(td, x) for x in flat)))
+    return out
+
+
 def ref_program(td, decide, gcals, mcals, body, m=None):
     """(expanded body, hoisted declaration names) or Recursive"""
     out, decls = [], []
@@ -130,12 +170,13 @@ def ref_program(td, decide, gcals, mcals, body, m=None):
         e = ref_expand(td, decide, gcals, mcals, ins, frozenset(), m)
         for x in ([ins] if e is None else e):
             if x[0] == "Declaration": decls.append(x[1][0][1][0])
+            elif is_extern(td, x): pass          # PRAGMA EXTERN goes to the extern map, not to the body
             else: out.append(x)
     return out, decls
 
 
 # ---------------------------------------------------------------------------------------------------- source map (C19)
-def check_source_map(req, src_body, out_body, sm, m=None, label=""):
+def check_source_map(req, src_body, out_body, sm, m=None, label="", first_level=None):
     """sm: ("SourceMap", [[entries]]) tree.  Structural invariants of the statement."""
     entries = sm[1][0]
     last = -1
@@ -156,6 +197,15 @@ def check_source_map(req, src_body, out_body, sm, m=None, label=""):
             a, b = rng[1][0][1][0], rng[1][1][1][0]
             if not req("sm:range-nonempty", label, 0 <= a < b <= len(out_body)): continue
             covered.append((a, b))
+            fl = first_level(s) if first_level is not None else None
+            if fl is not None:
+                # every nested call's range has the length of what that call contributed to the body (checked before the coarser
+                # partition obligation, which the known finding about stale Unmodified entries also fails)
+                for e2 in exp[1][2][1][0]:
+                    s2, t2 = e2[1][0][1][0], e2[1][1]
+                    if t2[0] == "Unmodified" or not (0 <= s2 < len(fl)): continue
+                    r2 = t2[1][0][1][1]
+                    req("sm:nested-rewritten-length", label, r2[1][1][1][0] - r2[1][0][1][0] == fl[s2][1])
             check_nested(req, exp, b - a, m, label)
     covered.sort()
     pos = 0
@@ -356,7 +406,12 @@ class CalibCheck(Check):
             return
         if prop == "C19":
             if "body" not in q: return
-            check_source_map(req, src_body, q["body"], q["source_map"], m)
+            fl_cache = {}
+
+            def first_level(s):
+                if s not in fl_cache: fl_cache[s] = ref_first_level(td, decide, gcals, mcals, src_body[s], m) if 0 <= s < len(src_body) else None
+                return fl_cache[s]
+            check_source_map(req, src_body, q["body"], q["source_map"], m, first_level=first_level)
             check_queries(req, q["source_map"], len(src_body), len(q["body"]), q["list_sources"], q["list_targets"])
             return
 
@@ -406,12 +461,35 @@ class CalibCheck(Check):
         role = f"{kind}:{detail}"
         if kind.startswith("sm:"):
             # cause signature: does the expansion hoist a DECLARE out of a calibration body (the known stale-index case)?
+            decls = []
             try:
-                _, decls = ref_program(self.td, bool, obs["_gcals"], obs["_mcals"], obs["_src"])
+                for ins in obs["_src"]:
+                    e = ref_expand(self.td, bool, obs["_gcals"], obs["_mcals"], ins, frozenset())
+                    decls += [x for x in (e or []) if not in_body(self.td, x)]          # anything add_instruction keeps out of the body
             except Recursive:
                 decls = []
             role = f"{kind}:{'hoisted-declaration' if decls else 'no-hoisting'}"
+            if kind == "sm:nested-rewritten-length":
+                # cause: does the nested call whose range is wrong hoist something itself (the listed defect of remove_target_index),
+                # or is the hoisted instruction a sibling of the call?
+                role = f"{kind}:{self.nested_length_cause(obs)}"
         return True, role, f"{kind} ({detail}) fails for {case['program']!r}: mapped={str(raw['mapped'])[:500]}"
+
+    def nested_length_cause(self, obs):
+        td = self.td
+        q = obs["mapped"]
+        for e in q["source_map"][1][0]:
+            s, t = e[1][0][1][0], e[1][1]
+            if t[0] == "Unmodified": continue
+            fl = ref_first_level(td, bool, obs["_gcals"], obs["_mcals"], obs["_src"][s]) if 0 <= s < len(obs["_src"]) else None
+            if fl is None: continue
+            for e2 in t[1][0][1][2][1][0]:
+                s2, t2 = e2[1][0][1][0], e2[1][1]
+                if t2[0] == "Unmodified" or not (0 <= s2 < len(fl)): continue
+                r2 = t2[1][0][1][1]
+                if r2[1][1][1][0] - r2[1][0][1][0] != fl[s2][1]:
+                    return "child-hoists" if fl[s2][2] else "sibling-hoisted"
+        return "unknown"
 
     def validate(self, runner, sample):
         obs, raw = self.native(runner, sample)
